@@ -28,7 +28,7 @@ static int _identifier_init(void *ptr, const void *src)
 {
 	MPT_STRUCT(identifier) *c = ptr;
 	mpt_identifier_init(c, sizeof(*c));
-	if (src && mpt_identifier_copy(c, src)) {
+	if (src && !mpt_identifier_copy(c, src)) {
 		return MPT_ERROR(BadOperation);
 	}
 	return c ? 1 : 0;
